@@ -122,6 +122,9 @@ def gen_irenums(tools):
 
 GENERATORS = {"lex": gen_lex, "irenums": gen_irenums}
 
+import c16gen  # C16: Gen/Keywords.v
+GENERATORS["keywords"] = lambda tools: c16gen.gen_keywords(sys.modules[__name__], tools)
+
 
 def regenerate(tools, names):
     os.makedirs(GEN, exist_ok=True)
